@@ -20,6 +20,19 @@ def workdir(tag):
     return base
 
 
+def _default_signals():
+    """The driver starts with default signal dispositions whatever this process inherited (a shell that runs the check in
+    the background without job control hands SIGINT and SIGQUIT down as *ignored*, and ignored signals survive exec)."""
+    import signal
+    for sig in range(1, 65):
+        if sig in (signal.SIGKILL, signal.SIGSTOP, 32, 33):
+            continue
+        try:
+            signal.signal(sig, signal.SIG_DFL)
+        except (OSError, ValueError, RuntimeError):
+            pass
+
+
 def run_driver(script, prog, base, timeout=120, env_extra=None, hooks=False, python=None):
     """Runs real/<script> <prog.json> <outdir>. Returns dict(rc, out(list of json objects), err(str), timed_out, pgid_left)."""
     d = tempfile.mkdtemp(dir=base)
@@ -41,7 +54,7 @@ def run_driver(script, prog, base, timeout=120, env_extra=None, hooks=False, pyt
     t0 = time.monotonic()
     with open(outf, "w") as out, open(errf, "w") as err:
         p = subprocess.Popen([python or common.PY, "-u", os.path.join(REAL_DIR, script), pf, d], stdout=out, stderr=err,
-                             stdin=subprocess.DEVNULL, env=env, cwd=d, start_new_session=True)
+                             stdin=subprocess.DEVNULL, env=env, cwd=d, start_new_session=True, preexec_fn=_default_signals)
         timed_out = False
         try:
             rc = p.wait(timeout=timeout)
